@@ -492,6 +492,15 @@ def directed_ctor_specs(G, quick=True):
             out.append((["chain", [leaf(sh, c1), leaf(sh, c2)]], "cshapes:chain"))
             out.append((["stack", -1, [leaf(sh, c1), leaf(sh, c2)]], "cshapes:stack"))
             out.append((["concat", -1, [leaf(sh, c1), leaf(sh, c2), leaf(sh, None)]], "cshapes:concat"))
+    # three children with an unconditional one in any position: a check that only compares NEIGHBOURING cond_shapes (or only
+    # against the first child) must not slip through (seeded change C13b)
+    for c1 in CSHAPES:
+        for c3 in CSHAPES:
+            for trip in ([c1, None, c3], [None, c1, c3], [c1, c3, None]):
+                kids = [leaf(sh, c) for c in trip]
+                out.append((["chain", kids], "cshapes3:chain"))
+                out.append((["stack", [-1, 0][len(out) % 2], kids], "cshapes3:stack"))
+                out.append((["concat", [0, -1][len(out) % 2], kids], "cshapes3:concat"))
     for s1 in LATTICE:           # Reshape: every pair (child shape, new shape); cond reshapes
         for s2 in LATTICE:
             out.append((["reshape", s2, None, leaf(s1, None)], "shapes:reshape"))
